@@ -85,16 +85,22 @@ def make_matrix(case):
     import tenpy.linalg.np_conserved as npc
     kind = case['charge']
     legs = [leg_of(kind, case['qL'], 1), leg_of(kind, case['qR'], -1)]
+    if case.get('bunch'):  # sorted and bunched legs ("blocked"), as tenpy's own constructors produce them
+        legs = [l.sort(bunch=True)[1] for l in legs]
     dt = np.complex128 if case['dtype'] == 'complex' else np.float64
     a = npc.Array.from_func(entries(case['seed'], case['dtype']), legs, dtype=dt, qtotal=case['qtotal'] or None,
                             labels=['vL', 'vR'])
     if case.get('spectrum'):
-        # impose the given singular values block by block (exact degeneracies across and inside blocks)
+        # impose the given singular values block by block (exact degeneracies across and inside blocks);
+        # 'rank1': one nonzero singular value in the whole matrix (all others exactly zero up to rounding)
         sp = list(case['spectrum'])
         k = 0
         for blk in a._data:
             u, s, vh = np.linalg.svd(blk, full_matrices=False)
-            s = np.array([sp[(k + i) % len(sp)] for i in range(len(s))])
+            if case.get('rank1'):
+                s = np.array([sp[0] if k + i == 0 else 0.0 for i in range(len(s))])
+            else:
+                s = np.array([sp[(k + i) % len(sp)] for i in range(len(s))])
             k += len(s)
             blk[...] = (u * s) @ vh
     if len(a._data) == 0 or npc.norm(a) == 0:
@@ -128,11 +134,52 @@ def check_svd(case):
     if theta is None:
         return None, None, {'empty': True}
     th = theta.to_ndarray()
-    try:
-        U, S, VH, err, renorm = quiet(lambda: svd_theta(theta.copy(deep=True), trunc_opts(case)))
-    except Exception as e:
-        return 'svd_theta.raises', f'{type(e).__name__}: {e}', {}
+    kw = {}
+    qlr = case.get('qtotal_LR')
+    if qlr is not None:
+        kw['qtotal_LR'] = [None if q is None else np.array(q, dtype=int) for q in qlr]
+    if case.get('inner_labels') is not None:
+        kw['inner_labels'] = list(case['inner_labels'])
+    if case.get('as_config'):
+        from tenpy.tools.params import asConfig
+        tp = asConfig(trunc_opts(case), 'trunc_params')
+    else:
+        tp = trunc_opts(case)
+    chinfo = theta.chinfo
+    bad_sum = (qlr is not None and qlr[0] is not None and qlr[1] is not None
+               and not np.array_equal(chinfo.make_valid(np.array(qlr[0]) + np.array(qlr[1])), theta.qtotal))
+    with warnings.catch_warnings(record=True) as wlist:
+        warnings.simplefilter('always')
+        try:
+            U, S, VH, err, renorm = svd_theta(theta.copy(deep=True), tp, **kw)
+        except Exception as e:
+            if bad_sum and isinstance(e, ValueError):
+                return None, None, {'rejected': True}  # documented: the two charges have to add up to theta.qtotal
+            return 'svd_theta.raises', f'{type(e).__name__}: {e}', {}
+        finally:
+            if case.get('as_config'):
+                tp.unused.clear()  # no "unused options" noise when the Config is collected
+    if bad_sum:
+        return 'svd_theta.qtotal_LR-not-rejected', f'qtotal_LR {qlr} does not add up to {theta.qtotal.tolist()}', {}
     info = {'kept': len(S), 'full': min(th.shape)}
+    # charges and labels of the factors
+    if not np.array_equal(chinfo.make_valid(U.qtotal + VH.qtotal), theta.qtotal):
+        return 'svd_theta.qtotal-of-factors', f'{U.qtotal} + {VH.qtotal} != {theta.qtotal}', info
+    if qlr is not None:
+        for q, T, nm in ((qlr[0], U, 'U'), (qlr[1], VH, 'VH')):
+            if q is not None and not np.array_equal(T.qtotal, chinfo.make_valid(np.array(q, dtype=int))):
+                return 'svd_theta.qtotal_LR-ignored', f'{nm}.qtotal {T.qtotal.tolist()} requested {q}', info
+    il = case.get('inner_labels') or ['vR', 'vL']
+    if U.get_leg_labels() != ['vL', il[0]] or VH.get_leg_labels() != [il[1], 'vR']:
+        return 'svd_theta.inner_labels', f'{U.get_leg_labels()} {VH.get_leg_labels()} requested {il}', info
+    # the "catastrophic reduction" diagnostic: issued iff chi drops by more than a factor 100 not because of chi_max
+    full_len = min(th.shape)
+    cm_eff = case['trunc'].get('chi_max', 100)
+    expect_cat = len(S) * 100 < full_len and (cm_eff is None or len(S) != cm_eff)
+    got_cat = any('Catastrophic reduction' in str(x.message) for x in wlist)
+    info['catastrophic'] = got_cat
+    if expect_cat != got_cat:
+        return 'svd_theta.catastrophic-warning', f'expected {expect_cat} got {got_cat} ({full_len} -> {len(S)})', info
     if not np.array_equal(theta.to_ndarray(), th):
         return 'svd_theta.mutates-input', '', info
     try:
@@ -180,13 +227,46 @@ def check_eigh(case):
     rho = rho / npc.trace(rho).real * case.get('trace', 1.0)
     rd = rho.to_ndarray()
     tr = np.trace(rd).real
-    try:
-        W, V, err = quiet(lambda: eigh_rho(rho.copy(deep=True), trunc_opts(case)))
-    except Exception as e:
-        return 'eigh_rho.raises', f'{type(e).__name__}: {e}', {}
+    kw = {}
+    uplo = case.get('UPLO')
+    arg = rho
+    if uplo is not None:
+        kw['UPLO'] = uplo
+        if rho.legs[0].is_blocked():
+            # only the named triangle may be read: spoil the other one (entry-wise, keeps the charge structure)
+            spoiled = rd.copy()
+            iu = np.triu_indices(rd.shape[0], 1) if uplo == 'L' else np.tril_indices(rd.shape[0], -1)
+            spoiled[iu] = 3.0 * spoiled[iu]
+            arg = npc.Array.from_ndarray(spoiled, rho.legs, dtype=rho.dtype, labels=rho.get_leg_labels())
+    if 'sort' in case:
+        kw['sort'] = case['sort']
+    arg0 = arg.to_ndarray()
+    with warnings.catch_warnings(record=True) as wlist:
+        warnings.simplefilter('always')
+        try:
+            W, V, err = eigh_rho(arg.copy(deep=True), trunc_opts(case), **kw)
+        except Exception as e:
+            return 'eigh_rho.raises', f'{type(e).__name__}: {e}', {}
     info = {'kept': len(W), 'full': rd.shape[0]}
-    if not np.array_equal(rho.to_ndarray(), rd):
+    if not np.array_equal(arg.to_ndarray(), arg0):
         return 'eigh_rho.mutates-input', '', info
+    if V.get_leg_labels() != [rho.get_leg_labels()[0], 'eig']:
+        return 'eigh_rho.labels', f'{V.get_leg_labels()}', info
+    cm_eff = case['trunc'].get('chi_max', 100)
+    expect_cat = len(W) * 100 < rd.shape[0] and (cm_eff is None or len(W) != cm_eff)
+    got_cat = any('Catastrophic reduction' in str(x.message) for x in wlist)
+    info['catastrophic'] = got_cat
+    if expect_cat != got_cat:
+        return 'eigh_rho.catastrophic-warning', f'expected {expect_cat} got {got_cat} ({rd.shape[0]} -> {len(W)})', info
+    # order of the eigenvalues inside each charge block as requested by `sort` (None is ascending)
+    srt = case.get('sort')
+    leg = V.legs[1]
+    for b in range(leg.block_number):
+        w = W[leg.slices[b]:leg.slices[b + 1]]
+        d = np.diff(w)
+        bad = (d < -1e-12 * tr).any() if srt in (None, '<', 'm<') else (d > 1e-12 * tr).any()
+        if bad:
+            return 'eigh_rho.sort-order', f'sort={srt!r}: block {b} has eigenvalues {w.tolist()}', info
     Vd = V.to_ndarray()
     k = len(W)
     if Vd.shape != (rd.shape[0], k) or k < 1:
@@ -236,10 +316,11 @@ def make_two_site(case, gauge):
     return TL, TR, theta
 
 
-def run_qr(case, gauge):
+def run_qr(case, gauge, tensors=None, compute_err=True, return_both_T=True):
+    """one call of decompose_theta_qr_based, measured densely. `tensors` = (T_L, T_R, theta) overrides the recipe."""
     import tenpy.linalg.np_conserved as npc
     from tenpy.linalg.truncation import decompose_theta_qr_based
-    TL, TR, theta = make_two_site(case, gauge)
+    TL, TR, theta = tensors if tensors is not None else make_two_site(case, gauge)
     if npc.norm(theta) == 0:
         return {'empty': True}
     th = theta.to_ndarray()
@@ -247,30 +328,76 @@ def run_qr(case, gauge):
     try:
         T_Lc, S, T_Rc, form, err, renorm = quiet(lambda: decompose_theta_qr_based(
             TL.qtotal, TR.qtotal, old_leg, theta.copy(deep=True), case['move_right'], case['expand'],
-            case['min_block_increase'], case['eig_based'], trunc_opts(case), True, True))
+            case['min_block_increase'], case['eig_based'], trunc_opts(case), compute_err, return_both_T))
     except Exception as e:
-        return {'raise': f'{type(e).__name__}: {e}'}
-    out = {'S': np.sort(np.asarray(S))[::-1], 'eps': float(err.eps), 'renorm': float(renorm), 'form': list(form)}
-    L, R = T_Lc.to_ndarray(), T_Rc.to_ndarray()
-    if case['eig_based']:
-        approx = L @ R
-    else:
-        approx = (L * S) @ R
-    out['rel2'] = float(np.linalg.norm(th - renorm * approx) ** 2 / np.linalg.norm(th) ** 2)
-    out['iso'] = max(isometry_defect(L, True) if form[0] == 'A' else 0.0,
-                     isometry_defect(R, False) if form[1] == 'B' else 0.0)
+        return {'raise': f'{type(e).__name__}: {e}', 'exc': type(e).__name__}
+    out = {'S': np.sort(np.asarray(S))[::-1], 'eps': float(err.eps), 'ov': float(err.ov), 'renorm': float(renorm),
+           'form': list(form), 'has_L': T_Lc is not None, 'has_R': T_Rc is not None}
     out['normS'] = float(np.linalg.norm(S))
     out['unchanged'] = bool(np.array_equal(theta.to_ndarray(), th))
+    out['labels'] = [None if T is None else T.get_leg_labels() for T in (T_Lc, T_Rc)]
+    iso = 0.0
+    if T_Lc is not None and form[0] == 'A':
+        iso = max(iso, isometry_defect(T_Lc.to_ndarray(), True))
+    if T_Rc is not None and form[1] == 'B':
+        iso = max(iso, isometry_defect(T_Rc.to_ndarray(), False))
+    out['iso'] = iso
+    if T_Lc is not None and T_Rc is not None:
+        L, R = T_Lc.to_ndarray(), T_Rc.to_ndarray()
+        approx = L @ R if case['eig_based'] else (L * S) @ R
+        out['rel2'] = float(np.linalg.norm(th - renorm * approx) ** 2 / np.linalg.norm(th) ** 2)
     return out
 
 
-def check_qr(case):
-    base = run_qr(case, False)
+def check_qr_flags(case, base, info):
+    """the compute_err / return_both_T combinations against the fully computed reference `base`"""
+    tol = 1e-6 if case['eig_based'] else 1e-9
+    for ce, rb in ((False, True), (False, False), (True, False)):
+        r = run_qr(case, False, compute_err=ce, return_both_T=rb)
+        tag = f'compute_err={ce},return_both_T={rb}'
+        if 'raise' in r:
+            return 'qr_based.flags.raises', f'{tag}: {r["raise"]}'
+        both = ce or rb  # compute_err forces both tensors
+        want_L = both or case['move_right']
+        want_R = both or not case['move_right']
+        if (r['has_L'], r['has_R']) != (want_L, want_R):
+            return 'qr_based.flags.returned-tensors', f'{tag}: T_Lc {r["has_L"]} T_Rc {r["has_R"]}'
+        if ce:
+            if abs(r['eps'] - base['eps']) > tol:
+                return 'qr_based.flags.eps', f'{tag}: eps {r["eps"]!r} vs {base["eps"]!r}'
+        elif not (np.isnan(r['eps']) and np.isnan(r['ov'])):
+            return 'qr_based.flags.eps-not-nan', f'{tag}: eps {r["eps"]!r} (documented: NaN when not computed)'
+        if len(r['S']) != len(base['S']) or np.max(np.abs(r['S'] - base['S'])) > tol \
+                or abs(r['renorm'] - base['renorm']) > tol * max(1, base['renorm']):
+            return 'qr_based.flags.result-depends-on-flags', f'{tag}: S {r["S"].tolist()} vs {base["S"].tolist()}'
+        if 'rel2' in r and abs(r['rel2'] - base['eps']) > max(TOL, tol):
+            return 'qr_based.flags.reconstruction', f'{tag}: error {r["rel2"]!r} vs reference eps {base["eps"]!r}'
+        if r['iso'] > (1e-6 if case['eig_based'] else 1e-9):
+            return 'qr_based.flags.factor-not-isometric', f'{tag}: {r["iso"]!r}'
+        lab = r['labels']
+        if (lab[0] is not None and lab[0] != ['(vL.p)', 'vR']) or (lab[1] is not None and lab[1] != ['vL', '(p.vR)']):
+            return 'qr_based.flags.labels', f'{tag}: {lab}'
+    return None, None
+
+
+def check_qr(case, tensors=None):
+    base = run_qr(case, False, tensors=tensors)
     info = {}
     if base.get('empty'):
         return None, None, {'empty': True}
+    if case['expand'] is None or case['expand'] == 0:
+        # `_qr_theta_Y0` asserts a nonzero expansion rate (the engines choose the SVD path otherwise)
+        if base.get('exc') == 'AssertionError':
+            return None, None, {'rejected': True}
+        if 'raise' in base:
+            return 'qr_based.expand-none.raises', base['raise'], info
     if 'raise' in base:
         return 'qr_based.raises', base['raise'], info
+    if base['labels'] != [['(vL.p)', 'vR'], ['vL', '(p.vR)']]:
+        return 'qr_based.labels', f'{base["labels"]}', info
+    want_form = (['A', 'Th'] if case['move_right'] else ['Th', 'B']) if case['eig_based'] else ['A', 'B']
+    if base['form'] != want_form:
+        return 'qr_based.form', f'{base["form"]} documented {want_form}', info
     info['kept'] = len(base['S'])
     tol = 1e-6 if case['eig_based'] else 1e-9
     cm = case['trunc'].get('chi_max', 100)
@@ -284,7 +411,12 @@ def check_qr(case):
         return 'qr_based.S-not-normalised', repr(base['normS']), info
     if base['iso'] > (1e-6 if case['eig_based'] else 1e-9):
         return 'qr_based.factor-not-isometric', repr(base['iso']), info
-    if case.get('gauge_q') is None:
+    if case.get('flags') and tensors is None:
+        sig, det = check_qr_flags(case, base, info)
+        info['flags'] = True
+        if sig:
+            return sig, det, info
+    if case.get('gauge_q') is None or tensors is not None:
         return None, None, info
     tw = run_qr(case, True)
     info['gauged'] = True
@@ -300,6 +432,164 @@ def check_qr(case):
         return ('qr_based.nonzero-qtotal.gauge-dependent',
                 f'zero total charges: chi {len(base["S"])} eps {base["eps"]:.6e}; same tensors with '
                 f'qtotal_L,R={case["gauge_q"]}: chi {len(tw["S"])} eps {tw["eps"]:.6e}', info)
+    return None, None, info
+
+
+# --------------------------------------------------------------------------------------------
+# _eig_based_svd (helper of the QR-based decomposition), called directly
+
+
+def check_eigsvd(case):
+    from tenpy.linalg.truncation import _eig_based_svd
+    A = make_matrix(case)
+    if A is None:
+        return None, None, {'empty': True}
+    Ad = A.to_ndarray()
+    need_U, need_Vd = case['need_U'], case['need_Vd']
+    tp = None if case['trunc'] is None else trunc_opts(case)
+    info = {}
+    try:
+        U, S, Vd, err, renorm = quiet(lambda: _eig_based_svd(A.copy(deep=True), need_U=need_U, need_Vd=need_Vd,
+                                                             inner_labels=['vR', 'vL'], trunc_params=tp))
+    except NotImplementedError:
+        if need_U and need_Vd:
+            return None, None, {'rejected': True}  # documented: both isometries at once are not supported
+        return 'eig_based_svd.raises', 'NotImplementedError', info
+    except Exception as e:
+        which = 'values-only-branch.' if not (need_U or need_Vd) else ''
+        return f'eig_based_svd.{which}raises', f'{type(e).__name__}: {str(e)[:200]}', info
+    if need_U and need_Vd:
+        return 'eig_based_svd.both-not-rejected', '', info
+    sv = np.linalg.svd(Ad, compute_uv=False)
+    k = len(S)
+    info['kept'] = k
+    if (U is not None) != need_U or (Vd is not None) != need_Vd:
+        return 'eig_based_svd.returned-factors', f'U {U is not None} Vd {Vd is not None}', info
+    if abs(np.linalg.norm(S) - 1) > 1e-9:
+        return 'eig_based_svd.S-not-normalised', repr(float(np.linalg.norm(S))), info
+    got2 = np.sort((S * renorm) ** 2)[::-1]
+    # diagonalising A A^dagger (need_U) or A^dagger A (need_Vd) yields as many values as that side is long: the
+    # singular values padded with zeros
+    side = Ad.shape[0] if need_U else Ad.shape[1] if need_Vd else min(Ad.shape)
+    ref2 = np.concatenate([sv ** 2, np.zeros(max(0, side - len(sv)))])
+    info['full'] = len(ref2)
+    which = 'values-only-branch.' if not (need_U or need_Vd) else ''
+    if k > len(ref2) or np.max(np.abs(got2 - ref2[:k])) > 1e-10 * sv[0] ** 2:
+        return f'eig_based_svd.{which}values', f'(S*renormalize)^2 {got2.tolist()} dense {ref2.tolist()}', info
+    if tp is None:
+        if k != len(ref2) or err.eps != 0.0 or err.ov != 1.0:
+            return 'eig_based_svd.no-truncation-requested', f'kept {k} of {len(ref2)}, err {err!r}', info
+    else:
+        cm = tp.get('chi_max', 100)
+        if cm is not None and cm >= 1 and k > cm:
+            return 'eig_based_svd.chi_max-exceeded', f'{k} > {cm}', info
+    # the returned isometry diagonalises A A^dagger (A^dagger A) with the returned values, column by column
+    lam = (np.asarray(S) * renorm) ** 2
+    if need_U:
+        if U.get_leg_labels()[1] != 'vR':
+            return 'eig_based_svd.labels', f'{U.get_leg_labels()}', info
+        Ud = U.to_ndarray()
+        G = Ud.conj().T @ Ad
+        M = G @ G.conj().T
+        iso = isometry_defect(Ud, True)
+    elif need_Vd:
+        if Vd.get_leg_labels()[0] != 'vL':
+            return 'eig_based_svd.labels', f'{Vd.get_leg_labels()}', info
+        Vn = Vd.to_ndarray()
+        G = Ad @ Vn.conj().T
+        M = G.conj().T @ G
+        iso = isometry_defect(Vn, False)
+    else:
+        return None, None, info
+    if iso > 1e-9:
+        return 'eig_based_svd.factor-not-isometric', repr(iso), info
+    if np.max(np.abs(M - np.diag(lam))) > 1e-9 * sv[0] ** 2:
+        return 'eig_based_svd.vectors-vs-values', f'max deviation {np.max(np.abs(M - np.diag(lam)))!r}', info
+    return None, None, info
+
+
+# --------------------------------------------------------------------------------------------
+# two-site wave functions taken from matrix product states (finite / infinite / segment boundaries)
+
+_PSI_CACHE = {}
+
+
+def make_psi(case):
+    """random MPS of spin-1/2 sites (deterministic in the case), as TEBD would hold it"""
+    key = (case['bc'], case['conserve'], case['L'], case['chi'], case['dtype'], case['psi_seed'])
+    if key in _PSI_CACHE:
+        return _PSI_CACHE[key]
+    from tenpy.networks.site import SpinHalfSite
+    from tenpy.networks.mps import MPS
+    site = SpinHalfSite(conserve=case['conserve'], sort_charge=True)
+    L = case['L']
+    p_state = ['up', 'down'] * (L // 2) + ['up'] * (L % 2)
+    st = np.random.get_state()
+    np.random.seed(case['psi_seed'])
+    try:
+        bc = 'infinite' if case['bc'] in ('infinite', 'segment') else 'finite'
+        dt = np.complex128 if case['dtype'] == 'complex' else np.float64
+        psi = quiet(lambda: MPS.from_random_unitary_evolution([site] * L, case['chi'], p_state, bc=bc, dtype=dt))
+        if case['bc'] == 'segment':
+            psi = psi.extract_segment(0, 2 * L - 1)  # two unit cells of the infinite state, open boundary legs
+    finally:
+        np.random.set_state(st)
+    if len(_PSI_CACHE) > 40:
+        _PSI_CACHE.clear()
+    _PSI_CACHE[key] = psi
+    return psi
+
+
+def mps_two_site(case):
+    """theta = S[i0] B[i0] B[i1] after a random charge-conserving two-site gate, legs [(vL.p0), (p1.vR)]"""
+    import tenpy.linalg.np_conserved as npc
+    from tenpy.linalg.random_matrix import CUE
+    psi = make_psi(case)
+    i0 = case['bond'] % (psi.L if not psi.finite else psi.L - 1)
+    i1 = i0 + 1
+    C = psi.get_theta(i0, n=2, formL=0.0)  # the two B tensors
+    st = np.random.get_state()
+    np.random.seed(case['seed'] % (2 ** 32))
+    try:
+        pipe = npc.LegPipe([C.get_leg('p0'), C.get_leg('p1')])
+        Ug = npc.Array.from_func_square(CUE, pipe, labels=['(p0.p1)', '(p0*.p1*)']).split_legs()
+    finally:
+        np.random.set_state(st)
+    C = npc.tensordot(Ug, C, axes=(['p0*', 'p1*'], ['p0', 'p1']))
+    C.itranspose(['vL', 'p0', 'p1', 'vR'])
+    theta = C.scale_axis(psi.get_SL(i0), 'vL').combine_legs([('vL', 'p0'), ('p1', 'vR')], qconj=[+1, -1])
+    TL = psi.get_B(i0, 'B').replace_label('p', 'p0')
+    TR = psi.get_B(i1, 'B').replace_label('p', 'p1')
+    return TL, TR, theta
+
+
+def check_mps(case):
+    """QR-based and SVD-based splitting of the same physical two-site tensor"""
+    from tenpy.linalg.truncation import svd_theta
+    try:
+        TL, TR, theta = mps_two_site(case)
+    except Exception as e:  # building the state runs TEBD, i.e. svd_theta/truncate themselves
+        return 'mps.construction-raises', f'{type(e).__name__}: {str(e)[:200]}', {}
+    sig, det, info = check_qr(case, tensors=(TL, TR, theta))
+    info['bc'] = case['bc']
+    if sig:
+        return sig.replace('qr_based.', 'qr_based.mps.'), det, info
+    # the way TEBD splits: charges of U fixed to the old left tensor's
+    th = theta.to_ndarray()
+    try:
+        U, S, VH, err, renorm = quiet(lambda: svd_theta(theta.copy(deep=True), trunc_opts(case),
+                                                        [TL.qtotal, None], inner_labels=['vR', 'vL']))
+    except Exception as e:
+        return 'svd_theta.mps.raises', f'{type(e).__name__}: {e}', info
+    rel2 = np.linalg.norm(th - (U.to_ndarray() * (S * renorm)) @ VH.to_ndarray()) ** 2 / np.linalg.norm(th) ** 2
+    if abs(rel2 - err.eps) > TOL:
+        return 'svd_theta.mps.eps-vs-reconstruction', f'{rel2!r} vs {float(err.eps)!r}', info
+    if not np.array_equal(U.qtotal, TL.qtotal):
+        return 'svd_theta.mps.qtotal_LR-ignored', f'{U.qtotal} vs {TL.qtotal}', info
+    # the QR-based result can not beat the optimal (SVD) truncation at the same bond dimension
+    base = run_qr(case, False, tensors=(TL, TR, theta))
+    if 'raise' not in base and len(base['S']) <= len(S) and base['eps'] < err.eps - 1e-9 and len(base['S']) == len(S):
+        return 'qr_based.mps.better-than-svd', f'eps {base["eps"]!r} < optimal {float(err.eps)!r}', info
     return None, None, info
 
 
@@ -338,9 +628,74 @@ def gen_matrix_case(rng, part):
         case['spectrum'] = [rng.choice([1.0, 0.5, 0.5, 0.25, 0.25, 0.125, 0.0]) for _ in range(rng.randint(1, 4))]
         if not any(case['spectrum']):
             case['spectrum'][0] = 1.0
+    if part == 'svd':
+        r = rng.random()
+        n = nq(kind)
+        if r < 0.45:  # requested total charges of the factors
+            qt = case['qtotal']
+            qa = gen_q(rng, kind)
+            mode = rng.choice(['L', 'R', 'both', 'both', 'bad'] if n else ['L', 'both'])
+            if mode == 'L':
+                case['qtotal_LR'] = [qa, None]
+            elif mode == 'R':
+                case['qtotal_LR'] = [None, qa]
+            else:
+                qb = [int(t) - int(a) for t, a in zip(qt, qa)]
+                if mode == 'bad':
+                    qb[0] += 1
+                case['qtotal_LR'] = [qa, qb]
+        if rng.random() < 0.4:
+            case['inner_labels'] = rng.choice([['vR', 'vL'], ['a', 'b'], ['x', None], [None, None], ['vR*', 'w']])
+        if rng.random() < 0.1:
+            case['as_config'] = True
+        if rng.random() < 0.25:  # rank-deficient: exact zero singular values are kept or cut
+            case['spectrum'] = [rng.choice([1.0, 0.5, 0.0, 0.0]) for _ in range(rng.randint(2, 4))]
+            case['spectrum'][0] = 1.0
+            if rng.random() < 0.6:
+                case['trunc'] = dict(case['trunc'], svd_min=None, trunc_cut=None)
     if part == 'eigh':
         case['trace'] = rng.choice([1.0, 1.0, 2.0, 0.5])
+        if rng.random() < 0.6:
+            case['UPLO'] = rng.choice(['L', 'U'])
+            case['bunch'] = rng.random() < 0.8  # on blocked legs the other triangle is spoiled before the call
+        if rng.random() < 0.7:
+            case['sort'] = rng.choice([None, 'm>', 'm<', '>', '<'])
     return case
+
+
+def gen_big_case(rng, part):
+    """more than 100 values of which one survives: the 'catastrophic reduction' diagnostic branch"""
+    kind = rng.choice(['none', 'none', 'Z2'])
+    d = rng.randint(101, 115)
+    q = sorted(gen_q(rng, kind) for _ in range(d))
+    case = {'part': part, 'charge': kind, 'qL': q, 'qR': q if part == 'svd' else [q[0]],
+            'qtotal': [0] * nq(kind), 'dtype': 'real', 'seed': rng.randrange(10 ** 9), 'spectrum': [1.0], 'rank1': True,
+            'trunc': rng.choice([{'svd_min': 1e-8}, {'svd_min': 1e-8, 'chi_max': None}, {'svd_min': 1e-8, 'chi_max': 1},
+                                 {'svd_min': 1e-8, 'chi_max': 7}, {'chi_max': 1, 'svd_min': None, 'trunc_cut': None}])}
+    if part == 'eigh':
+        case['trace'] = 1.0
+    return case
+
+
+def gen_eigsvd_case(rng):
+    kind = rng.choice(KINDS)
+    blocked = rng.random() < 0.5
+    nu = rng.choice(['U', 'U', 'V', 'V', 'none', 'both'])
+    return {'part': 'eigsvd', 'charge': kind, 'qL': gen_qflat(rng, kind, rng.randint(1, 6), blocked),
+            'qR': gen_qflat(rng, kind, rng.randint(1, 6), blocked), 'qtotal': gen_q(rng, kind) if rng.random() < 0.3 else [0] * nq(kind),
+            'dtype': rng.choice(['real', 'complex']), 'seed': rng.randrange(10 ** 9),
+            'need_U': nu in ('U', 'both'), 'need_Vd': nu in ('V', 'both'),
+            'trunc': rng.choice([None, None, {'chi_max': 2, 'svd_min': None, 'trunc_cut': None}, {'chi_max': None, 'svd_min': 1e-6},
+                                 {'chi_max': 3}])}
+
+
+def gen_mps_case(rng):
+    bc = rng.choice(['finite', 'infinite', 'infinite', 'segment'])
+    return {'part': 'mps', 'charge': 'mps', 'bc': bc, 'conserve': rng.choice(['Sz', 'Sz', 'parity', 'None']), 'L': rng.choice([2, 4]) if bc != 'finite' else 4,
+            'chi': rng.choice([2, 4]), 'dtype': 'complex', 'psi_seed': rng.randrange(3), 'bond': rng.randrange(8),
+            'seed': rng.randrange(10 ** 9), 'move_right': rng.random() < 0.5, 'expand': rng.choice([0.1, 0.5, 1.0]),
+            'min_block_increase': rng.choice([0, 1, 2]), 'eig_based': rng.random() < 0.2, 'bond_from': rng.choice(['R', 'L']),
+            'trunc': rng.choice([{'chi_max': 4, 'svd_min': 1e-12}, {'chi_max': 2}, {'chi_max': None, 'svd_min': 1e-10}, {'chi_max': 8}])}
 
 
 def gen_qr_case(rng):
@@ -365,6 +720,10 @@ def gen_qr_case(rng):
             'move_right': rng.random() < 0.5, 'expand': rng.choice([0.1, 0.1, 0.5, 1.0, 2.0]),
             'min_block_increase': rng.choice([0, 0, 1, 1, 2]), 'eig_based': rng.random() < 0.2,
             'bond_from': rng.choice(['R', 'L']), 'trunc': gen_trunc(rng, light=True), 'gauge_q': None}
+    if rng.random() < 0.35:
+        case['flags'] = True  # also run the other compute_err / return_both_T combinations
+    if rng.random() < 0.04:
+        case['expand'] = rng.choice([None, 0])
     if n and rng.random() < 0.7:
         qL, qR = gen_q(rng, kind), gen_q(rng, kind)
         if rng.random() < 0.3:
@@ -376,7 +735,7 @@ def gen_qr_case(rng):
     return case
 
 
-CHECKS = {'svd': check_svd, 'eigh': check_eigh, 'qr': check_qr}
+CHECKS = {'svd': check_svd, 'eigh': check_eigh, 'qr': check_qr, 'eigsvd': check_eigsvd, 'mps': check_mps}
 
 
 def failing_sig(case):
@@ -398,11 +757,14 @@ def shrink(case, sig):
             for i in range(len(cur[k])):
                 if len(cur[k]) > 1:
                     cands.append(dict(cur, **{k: cur[k][:i] + cur[k][i + 1:]}))
-        for k in list(cur['trunc']):
+        for k in list(cur['trunc'] or {}):
             t = dict(cur['trunc'])
             del t[k]
             cands.append(dict(cur, trunc=t))
-        if cur.get('dtype') == 'complex':
+        for k in ('qtotal_LR', 'inner_labels', 'sort', 'flags', 'as_config'):
+            if cur.get(k) is not None:
+                cands.append({kk: vv for kk, vv in cur.items() if kk != k})
+        if cur.get('dtype') == 'complex' and cur['part'] != 'mps':
             cands.append(dict(cur, dtype='real'))
         if cur.get('spectrum'):
             cands.append(dict(cur, spectrum=None))
@@ -432,14 +794,37 @@ def run_cases(ctx, cases, deadline=None):
         if info.get('empty'):
             res.count(f'decomp.{case["part"]}.empty-matrix')
             continue
-        res.note_case(case, nontrivial=('kept' in info and info['kept'] < info.get('full', 10 ** 9)) or case['part'] == 'qr')
+        res.note_case(case, nontrivial=('kept' in info and info['kept'] < info.get('full', 10 ** 9)) or case['part'] in ('qr', 'mps'))
         res.count(f'decomp.{case["part"]}.charge={case["charge"]}')
         res.count(f'decomp.{case["part"]}.dtype={case["dtype"]}')
+        if info.get('rejected'):
+            res.count(f'decomp.{case["part"]}.rejected-as-documented')
+        if case['part'] == 'svd':
+            q = case.get('qtotal_LR')
+            res.count('decomp.svd.qtotal_LR=' + ('default' if q is None else 'L' if q[1] is None else 'R' if q[0] is None else 'both'))
+            res.count('decomp.svd.inner_labels=' + ('default' if case.get('inner_labels') is None else 'given'))
+            res.count('decomp.svd.zero-singular-values=' + str(bool(case.get('spectrum')) and (0.0 in case['spectrum'] or bool(case.get('rank1')))))
+            res.count('decomp.svd.catastrophic-warning=' + str(info.get('catastrophic', False)))
+            res.count('decomp.svd.options-as-Config=' + str(bool(case.get('as_config'))))
+        if case['part'] == 'eigh':
+            res.count('decomp.eigh.UPLO=' + str(case.get('UPLO', 'default')))
+            res.count('decomp.eigh.sort=' + (repr(case['sort']) if 'sort' in case else 'default'))
+            res.count('decomp.eigh.catastrophic-warning=' + str(info.get('catastrophic', False)))
+        if case['part'] == 'eigsvd':
+            res.count('decomp.eigsvd.need=' + ('both' if case['need_U'] and case['need_Vd'] else 'U' if case['need_U'] else 'Vd' if case['need_Vd'] else 'none'))
+            res.count('decomp.eigsvd.trunc_params=' + ('None' if case['trunc'] is None else 'given'))
+        if case['part'] == 'mps':
+            res.count('decomp.mps.bc=' + case['bc'])
+            res.count('decomp.mps.conserve=' + case['conserve'])
+            res.count('decomp.mps.move_right=' + str(case['move_right']))
         if case['part'] == 'qr':
+            res.count('decomp.qr.flag-combinations=' + str(bool(case.get('flags'))))
+            res.count('decomp.qr.expand=' + ('None/0' if not case['expand'] else 'number'))
+            res.count('decomp.qr.min_block_increase=%d' % case['min_block_increase'])
             res.count('decomp.qr.gauged=' + str(case.get('gauge_q') is not None))
             res.count('decomp.qr.move_right=' + str(case['move_right']))
             res.count('decomp.qr.eig_based=' + str(case['eig_based']))
-        elif 'kept' in info:
+        elif 'kept' in info and 'full' in info:
             res.count(f'decomp.{case["part"]}.truncated=' + str(info['kept'] < info['full']))
         if sig:
             seen[sig] = seen.get(sig, 0) + 1
@@ -487,6 +872,10 @@ def load_corpus():
 
 def gen_cases(rng, n_svd, n_eigh, n_qr):
     cases = [gen_matrix_case(rng, 'svd') for _ in range(n_svd)] + [gen_matrix_case(rng, 'eigh') for _ in range(n_eigh)]
+    cases += [gen_big_case(rng, 'svd') for _ in range(max(3, n_svd // 60))]
+    cases += [gen_big_case(rng, 'eigh') for _ in range(max(3, n_eigh // 60))]
+    cases += [gen_eigsvd_case(rng) for _ in range(n_qr // 3)]
+    cases += [gen_mps_case(rng) for _ in range(max(12, n_qr // 8))]
     k = 0
     while k < n_qr:
         c = gen_qr_case(rng)
